@@ -8,7 +8,9 @@ violation - it doubles the correspondence budget of that run (the place where a 
 listed in the evidence (`source_fingerprints.changed`), so a reader sees that the model is being compared with code that was
 edited since it was written.
 
-  python harness/fingerprints.py --record     rewrite fingerprints.json from the current tree (after reconciling a model)
+  PYTHONPATH=/verif /venv/bin/python harness/fingerprints.py --record
+      rewrite fingerprints.json from the current tree (after reconciling a model); the interpreter matters: ast.dump differs
+      between Python versions, so the fingerprints are recorded with the interpreter the checks run under
 """
 from __future__ import annotations
 
